@@ -6,7 +6,7 @@ use super::{IteratorOutput, iter_output_to_result};
 use crate::{KIteratorOutput as Output, Result, prelude::*};
 
 /// A double-ended peekable iterator for Koto
-#[derive(Clone, KotoCopy, KotoType)]
+#[derive(Clone, KotoType)]
 #[koto(runtime = crate)]
 pub struct Peekable {
     iter: KIterator,
@@ -76,6 +76,19 @@ impl Peekable {
         };
 
         Ok(IteratorOutput::from(peeked).into())
+    }
+}
+
+impl KotoCopy for Peekable {
+    // `Clone` shares the wrapped iterator (a `KIterator` is a shared pointer), so a copy has to be
+    // made explicitly for the copied peekable to advance independently of the original.
+    fn copy(&self) -> KObject {
+        Self {
+            iter: self.iter.make_copy().unwrap_or_else(|_| self.iter.clone()),
+            peeked_front: self.peeked_front.clone(),
+            peeked_back: self.peeked_back.clone(),
+        }
+        .into()
     }
 }
 
